@@ -16,22 +16,24 @@ const PATHS: [&str; 8] = ["time", "strings", "math/rand", "crypto/rand", "gopkg.
 /// what the program declares for the package and how it uses it
 const USES: [&str; 8] = ["fn-called", "fn-called-in-closure", "fn-called-discarded", "fn-only-in-unused-fn", "fn-declared-never-called", "type-and-fn-called", "type-declared-only", "type-in-signature-only"];
 
-fn program(paths: &[&str], usage: &str) -> String {
+fn program(paths: &[&str], usage: &str, placement: &str) -> String {
+    // in a library: the declarations live in package Lib, main names them through the package
+    let q = if placement == "library" { "Lib::" } else { "" };
     let mut decls = String::new();
     let mut main = String::new();
     for (k, p) in paths.iter().enumerate() {
         match usage {
             "fn-called" => {
                 decls.push_str(&format!("extern \"go\" \"{}\" \"Do\" do{}(n: int32) -> int32\n", p, k));
-                main.push_str(&format!("    string_println(int32_to_string(do{}(1)));\n", k));
+                main.push_str(&format!("    string_println(int32_to_string({}do{}(1)));\n", q, k));
             }
             "fn-called-in-closure" => {
                 decls.push_str(&format!("extern \"go\" \"{}\" \"Do\" do{}(n: int32) -> int32\n", p, k));
-                main.push_str(&format!("    let c{k} = |q: int32| do{k}(q) + 1;\n    string_println(int32_to_string(c{k}(2)));\n", k = k));
+                main.push_str(&format!("    let c{k} = |q: int32| {q}do{k}(q) + 1;\n    string_println(int32_to_string(c{k}(2)));\n", k = k, q = q));
             }
             "fn-called-discarded" => {
                 decls.push_str(&format!("extern \"go\" \"{}\" \"Do\" do{}(n: int32) -> int32\n", p, k));
-                main.push_str(&format!("    let _ = do{}(1);\n", k));
+                main.push_str(&format!("    let _ = {}do{}(1);\n", q, k));
             }
             "fn-only-in-unused-fn" => {
                 decls.push_str(&format!("extern \"go\" \"{}\" \"Do\" do{k}(n: int32) -> int32\nfn never{k}() -> int32 {{ do{k}(1) }}\n", p, k = k));
@@ -41,7 +43,7 @@ fn program(paths: &[&str], usage: &str) -> String {
             }
             "type-and-fn-called" => {
                 decls.push_str(&format!("extern type Th{k}\nextern \"go\" \"{}\" \"Make\" mk{k}(n: int32) -> Th{k}\nextern \"go\" \"{}\" \"Show\" show{k}(t: Th{k}) -> string\n", p, p, k = k));
-                main.push_str(&format!("    let v{k} = mk{k}(1);\n    string_println(show{k}(v{k}));\n", k = k));
+                main.push_str(&format!("    let v{k} = {q}mk{k}(1);\n    string_println({q}show{k}(v{k}));\n", k = k, q = q));
             }
             "type-declared-only" => {
                 decls.push_str(&format!("extern type Th{k}\nextern \"go\" \"{}\" \"Make\" mk{k}(n: int32) -> Th{k}\n", p, k = k));
@@ -51,7 +53,11 @@ fn program(paths: &[&str], usage: &str) -> String {
             }
         }
     }
-    format!("{}fn main() -> unit {{\n{}    string_println(\"done\")\n}}\n", decls, main)
+    if placement == "library" {
+        format!("package Main\nimport Lib\n\nfn main() -> unit {{\n{}    string_println(\"done\")\n}}\n//// FILE Lib/lib.gom\npackage Lib\n\n{}", main, decls)
+    } else {
+        format!("{}fn main() -> unit {{\n{}    string_println(\"done\")\n}}\n", decls, main)
+    }
 }
 
 pub struct Externs;
@@ -64,15 +70,17 @@ impl Family for Externs {
         &["C02", "C04"]
     }
     fn rule(&self) -> &'static str {
-        "extern declarations: 8 import paths (standard library, nested, a last segment that is not an identifier, a version suffix, two paths with one last segment, a last segment spelled like the runtime's own import) taken one at a time and in all pairs x 8 usages (function called / called in a closure / called and discarded / called only from an unused function / never called; type with constructor and consumer called / type declared only / type used in a signature only); oracle: the emitted Go passes the static checker with foreign members opaque (every package the text names is imported under that name, no import unused, no two imports bind one name); the programs are not executed (the Go model has no foreign packages). non-trivial = programs with two packages or a non-identifier last segment; distinct = distinct source text"
+        "extern declarations: 8 import paths (standard library, nested, a last segment that is not an identifier, a version suffix, two paths with one last segment, a last segment spelled like the runtime's own import) taken one at a time and in all pairs x 8 usages x 2 placements of the declarations (the main package; a library package that main imports) (function called / called in a closure / called and discarded / called only from an unused function / never called; type with constructor and consumer called / type declared only / type used in a signature only); oracle: the emitted Go passes the static checker with foreign members opaque (every package the text names is imported under that name, no import unused, no two imports bind one name); the programs are not executed (the Go model has no foreign packages). non-trivial = programs with two packages or a non-identifier last segment; distinct = distinct source text"
     }
     fn cases(&self, _tier: Tier) -> Box<dyn Iterator<Item = Value> + '_> {
         let mut v = Vec::new();
         for u in USES {
             for (i, p) in PATHS.iter().enumerate() {
-                v.push(json!({"paths": [p], "use": u}));
-                for q in PATHS.iter().skip(i + 1) {
-                    v.push(json!({"paths": [p, q], "use": u}));
+                for placement in ["main", "library"] {
+                    v.push(json!({"paths": [p], "use": u, "placement": placement}));
+                    for q in PATHS.iter().skip(i + 1) {
+                        v.push(json!({"paths": [p, q], "use": u, "placement": placement}));
+                    }
                 }
             }
         }
@@ -82,14 +90,15 @@ impl Family for Externs {
         let mut rep = Report::default();
         let paths: Vec<&str> = case["paths"].as_array().unwrap().iter().map(|p| p.as_str().unwrap()).collect();
         let usage = case["use"].as_str().unwrap();
-        let text = program(&paths, usage);
-        let site = format!("paths={};use={}", paths.join("+"), usage);
+        let placement = case["placement"].as_str().unwrap_or("main");
+        let text = program(&paths, usage, placement);
+        let site = if placement == "main" { format!("paths={};use={}", paths.join("+"), usage) } else { format!("paths={};use={};in={}", paths.join("+"), usage, placement) };
         let replay = json!({"kind": "text", "text": text, "oracle": "go-static"});
         if paths.len() > 1 || paths.iter().any(|p| p.rsplit('/').next().unwrap().chars().any(|c| !c.is_ascii_alphanumeric())) {
             rep.nontrivial_key = Some(text.clone());
         }
-        let path = ctx.scratch.single_path();
-        let comp = match compile_at(&path, &text) {
+        let (path, main_text) = materialize_text(ctx, &text);
+        let comp = match compile_at(&path, &main_text) {
             CompileOutcome::Ok(c) => c,
             CompileOutcome::Panic(m) => {
                 let m = normalise_msg(&m);
